@@ -262,6 +262,7 @@ pub fn artifact_inputs(ctx: &Ctx, label: &str, n_sim: u64, with_polkadot: bool, 
         cfg.nested_phantom = case % 4 == 1;
         cfg.allow_alias = allow_alias && case % 5 == 0;
         cfg.allow_char = false;
+        cfg.generic_recursion = false;
         cfg.p_assoc = if case % 3 == 0 { 0.5 } else { 0.15 };
         let prog = ProgGen::new(&mut rng, cfg).gen_program();
         let out = sim::simulate(&prog);
@@ -274,7 +275,7 @@ pub fn artifact_inputs(ctx: &Ctx, label: &str, n_sim: u64, with_polkadot: bool, 
         let unjudged = unjudged_ids(&r, &noncf);
         let root = pick_root(&mut rng, &r);
         let d = artifact_sdesc(&root, rng.gen_bool(0.5), rng.gen_bool(0.5), false);
-        inputs.push(ArtInput { label: format!("{label}#{case}"), reg: r, d, unjudged, source: Some(prog.render_source("TypeInfo")) });
+        inputs.push(ArtInput { label: format!("{label}#{case}"), reg: r, d, unjudged, source: Some(prog.render_source("TypeInfo")), has_noncf: !noncf.is_empty() });
     }
     if with_polkadot {
         let mut r = reg::load_polkadot();
@@ -282,7 +283,7 @@ pub fn artifact_inputs(ctx: &Ctx, label: &str, n_sim: u64, with_polkadot: bool, 
         let unjudged = unjudged_ids(&r, &noncf);
         if matches!(guard(|| scale_typegen::utils::ensure_unique_type_paths(&mut r)), Ok(Ok(()))) {
             let d = artifact_sdesc("runtime_types", true, true, true);
-            inputs.push(ArtInput { label: "polkadot".into(), reg: r, d, unjudged, source: None });
+            inputs.push(ArtInput { label: "polkadot".into(), reg: r, d, unjudged, source: None, has_noncf: !noncf.is_empty() });
         }
     }
     inputs
@@ -390,7 +391,7 @@ pub fn replay(ctx: &mut Ctx, v: &serde_json::Value) {
     let noncf: BTreeSet<u32> = serde_json::from_value(v["noncf"].clone()).unwrap_or_default();
     if v["via"].as_str() == Some("artifact") {
         // `noncf` already holds the unjudged ids of an artifact case
-        let inp = crate::art::ArtInput { label: "replay".into(), reg: reg.clone(), d: d.clone(), unjudged: noncf, source: None };
+        let inp = crate::art::ArtInput { label: "replay".into(), reg: reg.clone(), d: d.clone(), unjudged: noncf, source: None, has_noncf: false };
         crate::art::run_batch(ctx, "C01", vec![inp], 0, 12);
         ctx.case(0, true);
         return;
